@@ -1039,7 +1039,10 @@ class RTCPeerConnection(AsyncIOEventEmitter):
                 self.__sctp.setTransport(primaryTransport)
                 self.__sctp._bundled = True
 
-            # stop and discard old ICE transports
+            # stop and discard old ICE transports, except the primary one, which a
+            # slave may already have been sharing (e.g. max-bundle, data channel
+            # created before the first transceiver)
+            oldTransports.discard(primaryTransport)
             for dtlsTransport in oldTransports:
                 await dtlsTransport.stop()
                 await dtlsTransport.transport.stop()
